@@ -98,8 +98,11 @@ def frame_parts(data: bytes) -> typing.Tuple[int, int, typing.Optional[int]]:
 
 def _marshal(frame_type: int, channel_id: int, payload: bytes) -> bytes:
     """Marshal the low-level AMQ frame"""
+    # The size field counts bytes: len() of a bytes-like object other than
+    # bytes (a memoryview of multi-byte items) does not
     return b''.join([
-        struct.pack('>BHI', frame_type, channel_id, len(payload)), payload,
+        struct.pack('>BHI', frame_type, channel_id,
+                    memoryview(payload).nbytes), payload,
         constants.FRAME_END_CHAR
     ])
 
